@@ -194,7 +194,7 @@ func TestPropEveryCut(t *testing.T) {
 				}
 			}
 			if format == "fasta" || format == "fastq" {
-				c.Recs[i].Def = fmt.Sprintf(`{"count":%d,"k":"%s"} tail`, i, strings.Repeat("v>@+", rapid.IntRange(1000, 3000).Draw(rt, "long_title")))
+				c.Recs[i].Def = fmt.Sprintf(`{"count":%d,"k":"%s"} tail`, i, strings.Repeat("v>@+", rapid.SampledFrom([]int{1000, 3000, 16500, 20000}).Draw(rt, "long_title"))) // 4 KB .. 80 KB: beyond bufio's 4 KiB and a scanner's 64 KiB
 			}
 		}
 		c.WithFeatures = rapid.Bool().Draw(rt, "withfeatures")
